@@ -12,8 +12,10 @@ general composition theorem for stream samplers (`stream_bind_law`, resting on `
 `Measure.infinitePi`).  The older recursion-mirroring statements (`pafLaw`, `stopAt`, `bernOuterLaw`: each comparison
 `u ≤ t` READ as a Bernoulli(t) branch) are kept; the stream laws show that this reading is a theorem, not an assumption.
 Still assumed (trusted base): that `rng.random()` IS an i.i.d. uniform stream, and the real-number carrier.
-NOT covered by the stream laws: the degenerate `sensitivity = 0` branch of permute-and-flip (`bernInf`, infinite γ),
-whose model carries a coin fuel that is exhausted with probability `e^{-fuel}` (see `paf_stream_law_degenerate_full`).
+The degenerate `sensitivity = 0` branch of permute-and-flip (`bernInf`, infinite γ) carries a coin fuel in the model that
+is exhausted with probability `e^{-fuel}` (the Python loop is unbounded): its stream law holds up to that slack
+(`paf_stream_law_degenerate`).  The fuels of the outer loop of `bernoulli_neg_exp` and of the rounds of permute-and-flip
+are deterministic bounds (`fuel > γ`, `rounds ≥ #candidates`) and cost nothing.
 Proofs of the helper lemmas are in `DPL/Proofs/Discrete*.lean`.
 -/
 import DPL.Proofs.DiscreteExp
@@ -24,6 +26,7 @@ import DPL.Proofs.DiscreteGeomDP
 import DPL.Proofs.DiscretePAF
 import DPL.Proofs.DiscreteUnif
 import DPL.Proofs.DiscreteStreamPAF
+import DPL.Proofs.DiscreteStreamPAFDeg
 
 namespace DPL.C01
 open DPL DPL.Discrete MeasureTheory Set
@@ -455,6 +458,14 @@ theorem paf_stream_law (s : ℝ) (hs : 0 ≤ s) (us : List ℝ) (coinFuel : ℕ)
       = ENNReal.ofReal ((pafPmf (pafHeads (pafLogProbs (some s) us))).getD r 0) :=
   (Discrete.paf_stream_law s hs us coinFuel hcf r).2
 
+/-- **permute-and-flip returns a candidate with probability one** (finite scale): the shift by the maximum gives one
+coin head probability 1, so the `n` rounds of the model's fuel suffice and neither fuel is exhausted, except on a null
+set of streams -/
+theorem paf_returns_ae (s : ℝ) (hs : 0 ≤ s) (us : List ℝ) (hne : us ≠ []) (coinFuel : ℕ)
+    (hcf : ∀ x ∈ us, s * (pyMax us - x) < coinFuel) :
+    streamμ (⋃ r, Ret (pafRun (pafLogProbs (some s) us) coinFuel us.length (List.range us.length)) r)ᶜ = 0 :=
+  Discrete.paf_returns_ae s hs us hne coinFuel hcf
+
 /-- **permute-and-flip is ε-DP as a sampler**: for neighbouring utility vectors and every set `S` of candidates, the
 probability over the uniform stream that the model's `pafRun` returns a candidate in `S` satisfies the ε-DP inequality -/
 theorem paf_sampler_dp (eps sens : ℝ) (heps : 0 < eps) (hsens : 0 < sens) (us us' : List ℝ)
@@ -492,17 +503,38 @@ theorem paf_sampler_dp_monotonic (eps sens : ℝ) (heps : 0 < eps) (hsens : 0 < 
           (List.range us.length)) r) :=
   Discrete.paf_sampler_dp_monotonic eps sens heps hsens us us' hlen hne hnb coinFuel hcf hcf' S
 
-/-- NOT proved: the stream law of the degenerate branch (`sensitivity = 0`, infinite scale; log-probabilities `0` /
-`−∞`, the latter handled by `bernInf`, i.e. `bernoulli_neg_exp(+∞)`).  In Python that coin returns 0 with probability
-one (it stops at the first failing unit coin); the model's `bernInf` carries a fuel and reports `exhausted` after
-`coinFuel` consecutive unit successes, an event of probability `e^{−coinFuel} > 0`, so the statement needs that slack.
-MISSING: the box paths of `bernInf` (a `coinFuel`-fold composition of `bernLoop 1`) and the resulting bound; the rest of
-the argument is `paf_run_stream_law` verbatim.  (The DP claim for that branch is `paf_dp_degenerate`: neighbours within
-sup-norm 0 are equal.) -/
-def paf_stream_law_degenerate_full : Prop :=
-  ∀ (us : List ℝ) (coinFuel : ℕ) (r : ℕ),
-    let law := ENNReal.ofReal ((pafPmf (pafHeads (pafLogProbs (none : Option ℝ) us))).getD r 0)
-    let run := streamμ (Ret (pafRun (pafLogProbs (none : Option ℝ) us) coinFuel us.length (List.range us.length)) r)
-    run ≤ law ∧ law ≤ run + ENNReal.ofReal ((us.length : ℝ) * Real.exp (-(coinFuel : ℝ)))
+/-- `bernoulli_neg_exp(+∞)` (the coin of a `−∞` candidate in the degenerate branch; the model's `bernInf`): it never
+returns 1, returns 0 with probability `1 − exp(−fuel)` and exhausts the MODEL's fuel with probability `exp(−fuel)` (the
+Python loop is unbounded and returns 0 with probability one) -/
+theorem bernoulli_inf_then (fuel : ℕ) {β : Type} (K : Bool → List ℝ → Except DErr (β × List ℝ)) (c : β)
+    (hK : ∀ b, MeasurableSet (Ret (K b) c)) :
+    streamμ (Ret (bindS (bernInf fuel) K) c)
+      = ENNReal.ofReal (1 - Real.exp (-(fuel : ℝ))) * streamμ (Ret (K false) c) :=
+  (bernInf_bind_law fuel K c hK).2
+
+/-- **`pafRun` over the uniform stream with `−∞` log-probabilities allowed**: the probability of returning `r` is the
+model's `pafLaw` up to the probability that a `bernInf` coin exhausts the model's coin fuel:
+`run ≤ pafLaw ≤ run + rounds · exp(−coinFuel)` -/
+theorem paf_run_stream_law_slack (logp : List (Option ℝ)) (coinFuel : ℕ)
+    (hlog : ∀ o ∈ logp, o = none ∨ ∃ lp : ℝ, o = some lp ∧ lp ≤ 0 ∧ -lp < coinFuel) (fuel : ℕ) (ids : List ℕ)
+    (hids : ∀ i ∈ ids, i < logp.length) (r : ℕ) :
+    streamμ (Ret (pafRun logp coinFuel fuel ids) r)
+      ≤ ENNReal.ofReal (pafLaw (fun i => (pafHeads logp).getD i 0) fuel ids r) ∧
+    ENNReal.ofReal (pafLaw (fun i => (pafHeads logp).getD i 0) fuel ids r)
+      ≤ streamμ (Ret (pafRun logp coinFuel fuel ids) r)
+        + ENNReal.ofReal ((fuel : ℝ) * Real.exp (-(coinFuel : ℝ))) :=
+  (pafRun_stream_law_slack logp coinFuel hlog fuel ids hids r).2
+
+/-- **degenerate branch of `PermuteAndFlip.randomise` over the uniform stream** (`sensitivity = 0`, infinite scale,
+log-probabilities `0` / `−∞`): the law of the model sampler is `pafPmf(heads)` up to `n · exp(−coinFuel)` (the model's
+fuel artefact; with the driver's coin fuel the slack is far below the double grid).  The DP claim of that branch is
+`paf_dp_degenerate` (neighbours within sup-norm 0 are equal). -/
+theorem paf_stream_law_degenerate (us : List ℝ) (coinFuel : ℕ) (hcf : 0 < coinFuel) (r : ℕ) :
+    streamμ (Ret (pafRun (pafLogProbs (none : Option ℝ) us) coinFuel us.length (List.range us.length)) r)
+      ≤ ENNReal.ofReal ((pafPmf (pafHeads (pafLogProbs (none : Option ℝ) us))).getD r 0) ∧
+    ENNReal.ofReal ((pafPmf (pafHeads (pafLogProbs (none : Option ℝ) us))).getD r 0)
+      ≤ streamμ (Ret (pafRun (pafLogProbs (none : Option ℝ) us) coinFuel us.length (List.range us.length)) r)
+        + ENNReal.ofReal ((us.length : ℝ) * Real.exp (-(coinFuel : ℝ))) :=
+  Discrete.paf_stream_law_degenerate us coinFuel hcf r
 
 end DPL.C01
